@@ -217,6 +217,10 @@ func (r *Reader) Inspect(validateBlockHash bool) (Stats, error) {
 	if err != nil {
 		return Stats{}, err
 	}
+	if r.Version == 2 && header.Version != 1 {
+		// Same requirement as NewBlockReader: the data payload of a CARv2 is a CARv1.
+		return Stats{}, fmt.Errorf("invalid data payload header version; expected 1, got %v", header.Version)
+	}
 	stats.Roots = header.Roots
 	var rootsPresentCount int
 	rootsPresent := make([]bool, len(stats.Roots))
